@@ -32,6 +32,8 @@ ACCESSORS_ALIAS_ERRORS = [
     "is_namespace_package", "is_namespace_subpackage", "lines", "source", "module", "package", "exports", "imports", "extra",
     "relative_filepath", "relative_package_filepath", "mro", "resolved_bases", "path", "wildcard", "parent", "modules_collection",
     "resolve_name", "getitem", "len", "repr",
+    # kind-specific proxies (AttributeError when the final target is of another kind is Python's own answer)
+    "decorators", "overloads", "parameters", "returns", "bases", "value", "annotation", "setter", "deleter", "signature",
 ]
 # accessors that document further exception types of their own
 ACCESSOR_EXTRA_ERRORS = {
@@ -47,6 +49,7 @@ ACCESSOR_EXTRA_ERRORS = {
     "resolve_name": (),
     "as_json_full": (ValueError,),  # relative_package_filepath documents ValueError (stub-only module of a -stubs package elsewhere)
     "getitem": (KeyError,),
+    **{k: (AttributeError,) for k in ("decorators", "overloads", "parameters", "returns", "bases", "value", "annotation", "setter", "deleter", "signature")},
 }
 CALL_BUDGET = 50_000_000
 OP_CPU_SECONDS = 20
@@ -108,7 +111,13 @@ def _gen_stmt(rng, layout, here, is_init, cfg, idx, in_class=False):
             return {"s": "guarded", "how": rng.choice(["type_checking", "try", "if"]), "stmt": inner}
         return inner
     if k == "def":
-        return {"s": "def", "name": rng.choice(NAMES), "doc": rng.random() < 0.4}
+        st = {"s": "def", "name": rng.choice(NAMES), "doc": rng.random() < 0.4}
+        if rng.random() < 0.12:
+            # decorated with a module-scope name or an attribute of one - `@x.setter` on a function named x included,
+            # whatever x is bound to at that point (the visitor looks the base property up while the module is visited)
+            n = rng.choice([st["name"], st["name"], rng.choice(NAMES)])
+            st["deco"] = rng.choice([n, f"{n}.setter", f"{n}.setter", f"{n}.deleter"])
+        return st
     if k == "attr":
         return {"s": "attr", "name": rng.choice(NAMES)}
     if k == "class":
@@ -166,7 +175,8 @@ def _render_stmt(st, ind=""):
     s = st["s"]
     if s == "def":
         body = f'{ind}    """doc"""\n' if st.get("doc") else ""
-        return f"{ind}def {st['name']}():\n{body}{ind}    return None\n"
+        deco = f"{ind}@{st['deco']}\n" if st.get("deco") else ""
+        return f"{deco}{ind}def {st['name']}():\n{body}{ind}    return None\n"
     if s == "attr":
         return f"{ind}{st['name']} = 1\n"
     if s == "annattr":
@@ -353,8 +363,16 @@ def generate(rng, opts):
             return out
 
         for mp in modules:
-            modules[mp]["stmts"] = _strip(modules[mp]["stmts"])
+            # (no wildcard imports in these worlds: paths through a ring of public module aliases, walked through the
+            # member views of aliases, make some wildcard sources cost minutes - finite, but beyond any budget)
+            modules[mp]["stmts"] = [st for st in _strip(modules[mp]["stmts"]) if st["s"] != "star" and not (st["s"] == "guarded" and st["stmt"]["s"] == "star")]
         ring_motif = True
+    if rng.random() < 0.03:
+        # motif: `import pkg.n as n` in the package itself, then `@n.setter def n()`: the name the decorator goes
+        # through is an alias whose target path is the path of the function being defined
+        pkg = rng.choice(list(layout))
+        n = rng.choice(NAMES)
+        modules[pkg]["stmts"] += [{"s": "import", "mod": f"{pkg}.{n}", "as": n}, {"s": "def", "name": n, "doc": False, "deco": f"{n}.{rng.choice(['setter', 'deleter'])}"}]
     pending_star_motif = None
     if rng.random() < 0.03 and not ring_motif:
         # motif: a wildcard import whose source path (`_p.x`) only exists once another wildcard (in `_p`, from `ext`)
@@ -562,6 +580,8 @@ def _access(g, a, acc):
         return getattr(ft, "parameters", None) or getattr(ft, "bases", None)
     if acc == "mro":
         return a.mro()
+    if acc == "signature":
+        return a.signature()
     if acc == "resolve_name":
         try:
             return a.resolve("f")
@@ -641,9 +661,23 @@ def execute(plan, ctx):
             _execute(plan, inner, budget_mode=False)
         except _Timeout:
             # a CPU alarm is load dependent: decide termination deterministically with a call budget
+            global CALL_BUDGET
             inner = core.Ctx(keep_log=ctx.events is not None)
             inner.probe("cpu-alarm-rerun-under-call-budget")
             _execute(plan, inner, budget_mode=True)
+            if any(f["inv"] == "I2-termination" for f in inner.failures):
+                # some finite computations are combinatorial (paths through rings of module aliases, walked through
+                # member views): confirm with sixteen times the budget before calling it non-termination
+                saved = CALL_BUDGET
+                CALL_BUDGET = saved * 16
+                try:
+                    confirm = core.Ctx(keep_log=ctx.events is not None)
+                    confirm.probe("cpu-alarm-rerun-under-call-budget")
+                    confirm.probe("termination-confirmed-with-16x-budget")
+                    _execute(plan, confirm, budget_mode=True)
+                finally:
+                    CALL_BUDGET = saved
+                inner = confirm
         ctx.__dict__.update(inner.__dict__)
     finally:
         signal.setitimer(signal.ITIMER_VIRTUAL, 0)
@@ -1034,7 +1068,7 @@ class _Prop:
         "quick": {"runs": 50_000, "wall": 80, "det_n": 150, "shrink_s": 40},
         "thorough": {"runs": 500_000, "wall": 1100, "det_n": 1000, "shrink_s": 120},
     }
-    OPTS = {"chunk": 100, "chunk_wall": 600, "catch_kbi": True}
+    OPTS = {"chunk": 100, "chunk_wall": 1500, "catch_kbi": True}
     REPLAY_IN_PARENT = True
     RULE = (
         "one run = one generated world of 1-3 packages (+ private sibling _p, unloaded ext, names that exist nowhere) "
